@@ -488,3 +488,9 @@ func ReturnValues(ret *ssa.Return) []ssa.Value {
 	}
 	return out
 }
+
+// ConstStringIs reports whether v is the string constant s.
+func ConstStringIs(v ssa.Value, s string) bool {
+	x, ok := ConstString(v)
+	return ok && x == s
+}
